@@ -78,6 +78,11 @@ def torn_lengths(n, path, quick):
     if small and not quick:
         return list(range(1, n))
     cand = {1, 13, 14, 15, n // 2, n - 1}
+    if path.endswith("func_code.py"):
+        # the stored source contains non-ASCII characters: also tear inside each of them
+        for txt in CODE_TEXTS.values():
+            if len(txt) == n:
+                cand |= {k for k in range(1, n) if txt[k] & 0xC0 == 0x80}
     return sorted(k for k in cand if 0 < k < n)
 
 
@@ -159,6 +164,13 @@ def one_case(args):
 def body(c):
     cachefs_model.run_c05(c)
     wls = [w for w in WORKLOADS if (not c.quick) or w[0] in QUICK]
+    # reference texts of func_code.py for both versions (complete files)
+    refb = common.scratch("c05_ref")
+    for v in (1, 2):
+        rd = os.path.join(refb, "v%d" % v); os.makedirs(rd)
+        fsctl.run_plain(rd, spec_of(refb, v, {}, [["call", 3]]))
+        CODE_TEXTS[v] = open(os.path.join(rd, "joblib", "cachedmod", "f", "func_code.py"), "rb").read()
+    shutil.rmtree(refb, ignore_errors=True)
     cases = []; bases = []
     for wl in wls:
         base = common.scratch("c05_" + wl[0]); bases.append(base)
@@ -177,13 +189,6 @@ def body(c):
                 for ln in torn_lengths(n, t[1], c.quick):
                     cases.append((base, wl, cid, k, ln)); cid += 1
         c.extra.setdefault("mutating_calls", {})[wl[0]] = len(mut)
-    # reference texts of func_code.py for both versions (complete files)
-    refb = common.scratch("c05_ref")
-    for v in (1, 2):
-        rd = os.path.join(refb, "v%d" % v); os.makedirs(rd)
-        fsctl.run_plain(rd, spec_of(refb, v, {}, [["call", 3]]))
-        CODE_TEXTS[v] = open(os.path.join(rd, "joblib", "cachedmod", "f", "func_code.py"), "rb").read()
-    shutil.rmtree(refb, ignore_errors=True)
     model_states = {w: cachefs_model.crash_states(c, w, **MODEL_OF[w][0]) for w in [x[0] for x in wls] if MODEL_OF.get(w)}
     with ThreadPoolExecutor(max_workers=14) as ex:
         results = list(ex.map(one_case, cases))
